@@ -919,7 +919,7 @@ impl<K: Kind> Scenario for Bf<K> {
                         }
                         "f64" => {
                             let got: f64 = out.parse().unwrap_or(f64::NAN);
-                            let e = (base as f64) * 2f64.powi(extra as i32);
+                            let e = if base == 0 { 0.0 } else { (base as f64) * 2f64.powi(extra as i32) };
                             let ok = if e == 0.0 { got == 0.0 } else if e.is_infinite() { got.is_infinite() } else { ((got - e) / e).abs() < 1e-12 };
                             if !ok {
                                 ctx.fail("satcount", &format!("sat_count<f64>({}, {}) = {} expected {}", t.hex(), vars, out, e));
